@@ -124,6 +124,12 @@ fn gen_mat3(ch: &mut Chooser, allow_persp: bool, extent: f32) -> Matrix3<f32> {
     m[(1, 1)] = cs * s * sy;
     m[(0, 2)] = ch.float_sym("m3_t", 0.6, 6);
     m[(1, 2)] = ch.float_sym("m3_t", 0.6, 6);
+    if ch.odds("m3_mirror", 1, 5) {
+        // a reflection (negative determinant), e.g. image rows running down
+        let c = ch.choose("m3_mirror_axis", 2) as usize;
+        m[(0, c)] = -m[(0, c)];
+        m[(1, c)] = -m[(1, c)];
+    }
     if ch.odds("m3_shear", 1, 6) {
         m[(0, 1)] += ch.float_sym("m3_shear_v", 0.4, 4);
     }
@@ -165,6 +171,12 @@ fn gen_mat4(ch: &mut Chooser, extent: f32) -> Matrix4<f32> {
             m *= Matrix4::new_nonuniform_scaling(&Vector3::new(1.0, 0.7, 1.3));
         }
     }
+    if ch.odds("m4_mirror", 1, 5) {
+        // a reflection of one axis (negative determinant)
+        let mut d = Vector3::new(1.0, 1.0, 1.0);
+        d[ch.choose("m4_mirror_axis", 3) as usize] = -1.0;
+        m *= Matrix4::new_nonuniform_scaling(&d);
+    }
     if ch.flag("m4_has_translation") {
         let t = Vector3::new(
             ch.float_sym("m4_t", 0.5, 5),
@@ -176,6 +188,11 @@ fn gen_mat4(ch: &mut Chooser, extent: f32) -> Matrix4<f32> {
     if ch.odds("m4_persp", 1, 6) {
         // keep the homogeneous divisor within [0.6, 1.4] over the grid
         m[(3, 2)] = ch.float_sym("m4_persp_v", 0.4 / extent, 4);
+        if ch.odds("m4_persp_xy", 1, 3) {
+            // a general projective row; the divisor stays within [0.3, 1.7]
+            m[(3, 0)] = ch.float_sym("m4_persp_v", 0.15 / extent, 3);
+            m[(3, 1)] = ch.float_sym("m4_persp_v", 0.15 / extent, 3);
+        }
     } else if ch.odds("m4_homogeneous_scale", 1, 6) {
         // bottom row [0, 0, 0, w] with w != 1
         m[(3, 3)] = *ch.pick("m4_w", &[2.0f32, 0.5, 1.5, -1.0]);
